@@ -62,7 +62,14 @@ func accessFacts(s *src, f *facts) {
 	// innermost function body (literal or declaration) containing n
 	innerBody := func(fd *ast.FuncDecl, n ast.Node) (*ast.BlockStmt, string) {
 		if fl := enclosing[*ast.FuncLit](fd.Body, n); fl != nil {
-			return fl.Body, fmt.Sprintf("%s.func@%s", fd.Name.Name, s.pos(fl))
+			// name the literal by its ordinal among the function's literals, not by its line
+			n := 0
+			for i, l := range all[*ast.FuncLit](fd.Body, nil) {
+				if l == fl {
+					n = i + 1
+				}
+			}
+			return fl.Body, fmt.Sprintf("%s.func%d", fd.Name.Name, n)
 		}
 		return fd.Body, fd.Name.Name
 	}
@@ -218,6 +225,12 @@ func accessFacts(s *src, f *facts) {
 	sort.Slice(out, func(i, j int) bool {
 		if out[i].v != out[j].v {
 			return out[i].v < out[j].v
+		}
+		if out[i].site != out[j].site {
+			return out[i].site < out[j].site
+		}
+		if out[i].write != out[j].write {
+			return !out[i].write
 		}
 		return out[i].pos < out[j].pos
 	})
